@@ -100,6 +100,10 @@ func unitsFor(prop, tier string) []Unit {
 		us = append(us, Unit{Prop: prop, Tier: tier, Kind: "appx", Index: 0, Name: "appx/reload-histories (real binary, SIGUSR1)"})
 	case "C11":
 		us = append(us, Unit{Prop: prop, Tier: tier, Kind: "appx", Index: 0, Name: "appx/signals (real binary, SIGINT / SIGTERM)"})
+	case "C14":
+		us = append(us, Unit{Prop: prop, Tier: tier, Kind: "appx", Index: 0, Name: "appx/http-surface (real binary over a socket)"})
+	case "C18":
+		us = append(us, Unit{Prop: prop, Tier: tier, Kind: "procx", Index: 0, Bin: "race", Name: "procx/C18/race-build (same grammar under the race detector)"})
 	}
 	if prop == "C14" {
 		for i, c := range httpxCombos() {
@@ -527,6 +531,16 @@ func c06Scenarios(tier string) []*Scenario {
 	one := PipeCfg{Conc: 1, QL: -1, Graph: graphOne}
 	two := PipeCfg{Conc: 2, QL: -1, Graph: graphOne}
 	scs := c06List(mk, one, two, S)
+	for _, sc := range scs {
+		if strings.HasPrefix(sc.Name, "failure-") {
+			// job 1 is accepted under the two-parallel-tasks definition; the definition is then reloaded to a single
+			// task so that the later jobs are small
+			sc.Opts = func() WorldOpts {
+				return WorldOpts{Defs: defsOf(PipeCfg{Conc: 1, QL: -1, Graph: graphPar}, PipeCfg{Conc: 1, QL: -1, Graph: graphOne})}
+			}
+			sc.Prefix = []XEvent{S, {Kind: "R", Def: 1}, S}
+		}
+	}
 	for _, sc := range scs {
 		if strings.HasPrefix(sc.Name, "failure-") {
 			// only the tasks of the first job may fail (the later jobs just have to start in order)
